@@ -2132,6 +2132,10 @@ ZSTD_decompressBlock_internal(ZSTD_DCtx* dctx,
         if (ZSTD_isError(seqHSize)) return seqHSize;
         ip += seqHSize;
         srcSize -= seqHSize;
+#ifdef ZSTD_VERIF_SIM
+        /* the prefetching decoder is valid for every block : let the simulator force it */
+        usePrefetchDecoder |= ZSTD_VERIF_COIN(ZSTD_VC_usePrefetchDecoder);
+#endif
 
         RETURN_ERROR_IF((dst == NULL || dstCapacity == 0) && nbSeq > 0, dstSize_tooSmall, "NULL not handled");
         RETURN_ERROR_IF(MEM_64bits() && sizeof(size_t) == sizeof(void*) && (size_t)(-1) - (size_t)dst < (size_t)(1 << 20), dstSize_tooSmall,
